@@ -35,6 +35,27 @@ CHECKS = {
  "C20": ("other", "abstract interpretation with a bit-vector domain; extracted path predicates and result expressions evaluated over the complete finite domain",
          "All KindSet operators in every operand combination (64x64, 64x6, 6x6), len/is_empty, iterator steps (lowest/highest kind, exact removal, size_hint), the three renderings for all 64 sets, the constants and Value::kind are equal to set semantics: every operation is extracted as a set of (path predicate, result expression) pairs over symbolic mask bits and those expressions are evaluated on the complete domain.",
          "summary table (count_ones, fmt entry points); the set semantics in the rule file.", "3/C20"),
+ "C06": ("other", "CFG dominance / call-site / provenance rules over the MIR + abstract interpretation of the index buckets over all order configurations around the pivot",
+         "Necessary structural clauses: entries/indexes private and no public signature exposes &mut Entry / &mut Key / &mut Vec<Entry>; the functions that structurally modify the entry list are exactly the reviewed set; per writer the index maintenance calls exist, in the right dominance order, with the right position (push_entry, push_entry_front, remove_at, sort, canonicalize_with, from_vec, insert); Indexes::shift_down/shift_up/insert/remove interpreted on every order configuration of (representative, others, argument) around the pivot; removal iterators have draining Drop impls and remove through remove_at only.",
+         "NOT decided: equivalence with the ordered-list model over all operation histories; hash/equality coherence of Q, Key and hashbrown. Positions are only compared with each other, so the finitely many order configurations are representative.", "3/C06"),
+ "C09": ("other", "abstract interpretation of canonicalize_with per variant / entry count + comparator call-site rule + shared string table and printer rules",
+         "Coverage (numbers replaced unconditionally by NumberBuf::from_number(n.canonical_with(buffer)); every array item and entry value canonicalised with the same buffer; members sorted after the children on every path), ordering (the sort's comparator calls Iterator::cmp over encode_utf16() of both keys and no string/entry comparison of its own), strings (RFC 8785 table, total on char) and no-whitespace (compact record, printer model).",
+         "NOT decided: the numeric rendering (nearest double, ECMAScript shortest form) is computed by json-number/lexical/ryu-js.", "3/C09"),
+ "C10": ("other", "C06.pair rows of the sorting writers + C09 coverage/comparator rules + write-set rule",
+         "Necessary structural clauses: after the in-place sort the key index is cleared and rebuilt for every position (every sort dominates the clear, the clear every re-insert); children canonicalised before the parent is sorted on every path; canonicalisation assigns through `self` only the Number payload; the comparator is the position-independent total order on UTF-16 key sequences with the value as tie-break.",
+         "NOT decided: idempotence and spelling-independence of the numeric step (dependencies); whitespace/escape independence is C01/C02.", "3/C10"),
+ "C11": ("other", "abstract interpretation of one step of each mapped iterator / fragment lookup / conversion, linear forms over offset and VOL[.]",
+         "One next() of array::IterMapped, object::IterMapped and the four keyed Mapped* iterators (yields (o), (o, o+1, o+2) or value@o+2; steps by VOL[o] resp. 2+VOL[o+2], once per skipped entry; constructors start at offset+1); one level of Value/Entry/Object::get_fragment and get_array_fragment (0 -> self, 1 -> key, n -> value(n-2), remainder threaded in order, past-the-end distance); Traverse/SubFragments order; TryFromJson reports mismatches at the incoming offset, Option/Box pass it through, Vec/BTreeMap convert elements at mapped offsets.",
+         "correctness on parsed documents additionally needs C05 (the parser writes exactly this layout); offset additions assumed not to overflow.", "3/C11"),
+ "C14": ("other", "field-discipline + delegation-shape interpretation of the Object impls; derive facts from the item table",
+         "PartialEq/PartialOrd/Ord/Hash for Object touch only `entries` of their operands and delegate, on a single unconditional path, to the same method of Vec<Entry> (partial_cmp = Some(cmp)), calling nothing else; Value and Entry carry compiler-derived PartialEq/Eq/PartialOrd/Ord/Hash/Clone; Object: Clone is derived and Eq a marker.",
+         "coherence of the dependency types' Eq/Ord/Hash (NumberBuf, SmallString) trusted; derived lexicographic impls are mutually coherent given coherent components.", "3/C14"),
+ "C15": ("other", "per-variant-pair interpretation of Value::unordered_eq, call-site / provenance rules for Object and Vec, interpretation of Indexes::is_redundant",
+         "Necessary structural clauses only: dispatch over all 36 variant pairs (scalars ==, arrays Vec::unordered_eq, objects Object::unordered_eq, mixed false); Vec::unordered_eq compares lengths and elements position-wise with unordered_eq; Object::unordered_eq compares lengths, checks containment with unordered_eq in both directions, the backward pass guarded by duplicate keys of self; a key is redundant iff it has more than one position.",
+         "NOT decided: that the containment procedure is a one-to-one matching of duplicate keys (it is not on today's tree: {k:1,k:1,k:2} ~ {k:1,k:2,k:2}); no sound structural criterion is in reach, so this clause is unclaimed.", "3/C15"),
+ "C18": ("other", "per-variant interpretation of both conversions with the number/string conversions as recorded cut points + panic reachability",
+         "Both conversions map every variant to the same-named variant on a single unconditional path; numbers go through the number crate's From impl only, strings through From/into_string, containers through into_iter/map/collect with recursion into every element, objects rebuilt through the push family; every panic source in crate/sibling-crate code reachable from the four conversion entry points is discharged, allowlisted or a recorded known finding.",
+         "NOT decided: numeric equality of converted numbers (json-number converts through text / f64). The unwrap of from_f64 in json-number is a known finding.", "3/C18"),
 }
 
 NOT_YET = {}
